@@ -65,6 +65,35 @@ def normalize_dataset(ds):
     return d2
 
 
+def add_long_walk_island(ds, r):
+    """Four more stops and two more lines that touch nothing else: trip A rides P0 -> P, trip B rides Q -> Q1, and the ONLY way from
+    P to Q is a footpath LONGER than the default transfer maximum (1200 s), stored in both stop files with different times.
+    Returns the requests that must ride both: (q, access rows, egress rows) -- with a transfer maximum that allows the walk (or
+    none) the answer is that journey, with the default maximum there is none."""
+    n0 = max(ds.nodes) + 1
+    P0, P, Q, Q1 = n0, n0 + 1, n0 + 2, n0 + 3
+    ds.nodes = list(ds.nodes) + [P0, P, Q, Q1]
+    w, w2, dist = r.choice([1300, 1500, 2000]), r.choice([1250, 1800, 2300]), r.randint(900, 2500)
+    ds.fp[P0] = [(P0, 0, 0)]
+    ds.fp[P] = [(P, 0, 0), (Q, w, dist)]
+    ds.fp[Q] = [(Q, 0, 0), (P, w2, dist)]
+    ds.fp[Q1] = [(Q1, 0, 0)]
+    la, lb = max(l[0] for l in ds.lines) + 1, max(l[0] for l in ds.lines) + 2
+    ds.lines = list(ds.lines) + [(la, 1, 1), (lb, 2, 2)]
+    pa, pb = max(p[0] for p in ds.paths) + 1, max(p[0] for p in ds.paths) + 2
+    ds.paths = list(ds.paths) + [(pa, la, [P0, P], [700]), (pb, lb, [Q, Q1], [800])]
+    ta, tb = max(t[0] for t in ds.trips) + 1, max(t[0] for t in ds.trips) + 2
+    t0 = r.choice([21600, 36000, 50400])
+    tdep = t0 + 300 + w + r.choice([0, 60, 600])
+    ds.trips = list(ds.trips) + [(ta, pa, 1, [(t0, t0, 1, 1), (t0 + 300, t0 + 300, 1, 1)]), (tb, pb, 1, [(tdep, tdep, 1, 1), (tdep + 240, tdep + 240, 1, 1)])]
+    out = []
+    for maxtr in (MAX_INT, 2400, 1200):
+        q = dict(scen=1, time=t0 - 90, minw=0, maxtt=MAX_INT, maxacc=1200, maxegr=1200, maxtr=maxtr, maxfw=-1, fwd=1)
+        out.append((q, [(P0, 30, 40)], [(Q1, 30, 40)]))
+    out.append((dict(scen=1, time=tdep + 240 + 90, minw=0, maxtt=MAX_INT, maxacc=1200, maxegr=1200, maxtr=MAX_INT, maxfw=-1, fwd=0), [(P0, 30, 40)], [(Q1, 30, 40)]))
+    return out
+
+
 def serve_dataset(args):
     """one dataset: cache directory, stub, server, all operations; returns (impl lines, raw bodies, info)"""
     binary, ds, ops, workdir, opts = args
@@ -154,6 +183,8 @@ def l3_batch(seed, count, nq, driver, outdir, binary=None, profiles=("opt", "loo
         # server derives from a 60 s walking maximum (5 km/h: 83.3 m) -- the router stub offers ALL of them within 50 s, the
         # server must ask about the inside ones only; with any larger maximum of the request set every stop is inside
         near = (i % 5 == 4) and len(ds.nodes) >= 2
+        # every fourth directory gets an "island" whose two lines are joined by nothing but a footpath longer than 1200 s
+        island = add_long_walk_island(ds, r) if (i % 4 == 1 and not near and ds.lines and ds.paths and ds.trips) else []
         if near:
             l3.set_near_radius(ds, 60)
         # Int16 fields of the node files, distances of the path JSON
@@ -207,6 +238,31 @@ def l3_batch(seed, count, nq, driver, outdir, binary=None, profiles=("opt", "loo
                 ops.append(("route", q, True, acc, egr))
             if r.chance(0.35):
                 ops.append(("access", q, acc if q["fwd"] else egr))
+        for (qi_, acc_, egr_) in island:
+            ops.append(("route", qi_, False, acc_, egr_))
+        # requests PLANNED over a footpath longer than the default transfer maximum (1200 s): ride into its first stop, walk it,
+        # ride out of its second stop, with no transfer maximum -- the stop files' long rows must have been loaded, in both tables
+        if not near:
+            conns = ds.conns()          # (trip, seq, from, to, dep, arr, canBoard, canUnboard)
+            planned = 0
+            for a in ds.nodes:
+                for (b, w, dist) in ds.fp.get(a, []):
+                    if w <= 1200 or b == a or planned >= 2:
+                        continue
+                    pairs = [(ci, co) for ci in conns if ci[3] == a and ci[7] for co in conns
+                             if co[2] == b and co[6] and co[0] != ci[0] and co[4] >= ci[5] + w]
+                    if not pairs:
+                        continue
+                    ci, co = min(pairs, key=lambda p: p[1][4] - p[0][5])
+                    # ... in a scenario of its own that admits the two lines ridden only (no other line can short-cut the walk)
+                    line_of_trip = {t[0]: [pp[1] for pp in ds.paths if pp[0] == t[1]][0] for t in ds.trips}
+                    sid = 20 + planned
+                    ds.scens.append((sid, [[1, 2], sorted(set([line_of_trip[ci[0]], line_of_trip[co[0]]])), [], [], [], [], [], [], []]))
+                    qp = dict(scen=sid, time=max(0, ci[4] - 90), minw=0, maxtt=MAX_INT, maxacc=1200, maxegr=1200, maxtr=MAX_INT, maxfw=-1, fwd=1)
+                    ops.append(("route", qp, False, [(ci[2], 30, 40)], [(co[3], 30, 40)]))
+                    qr = dict(qp, fwd=0, time=min(115199, co[5] + 90))
+                    ops.append(("route", qr, False, [(ci[2], 30, 40)], [(co[3], 30, 40)]))
+                    planned += 1
         # per directory: one accessibility request whose place has NO stop in reach and one route request with both tables
         # empty (the router offers nothing): the NO_ACCESS_* reasons as the real renderer writes them
         if ops:
